@@ -1,6 +1,7 @@
 //! tvh — the tsrun verification harness. One binary, one subcommand per engine.
 mod common;
 mod run;
+mod c13;
 
 fn main() {
     // Silence the default panic printer: panics are observations here, reported as data.
@@ -12,6 +13,7 @@ fn main() {
     // subcommands run on the main thread with the ordinary 8 MiB stack.
     match sub {
         "run" => run::main(&rest),
+        "c13" => c13::main(&rest),
         _ => {
             eprintln!("usage: tvh <run|...> [args]");
             std::process::exit(2);
